@@ -26,6 +26,7 @@ Flow level (children of one composite are numbers, an emitting channel is 4*node
   pre <sig> <node>                              child's all-of trigger heard this emitter before the run (stale memory)
   owner <i> <0|1>   macro <m>   mstarters <i> …   two composites: children of the macro child m of the workflow
   run2 <fuel> <steps>                           the workflow with its hand-wired macro child (two queues)
+  roundtrip                                     state round trip of the composite (connections stored as strings and re-made)
   quiet <i>                                     the wrapped function of child i is not instrumented: leave it out of `calls`
   run <fuel>                                    prints the observations of one composite run
   rerun <fuel> <healed child> …                 the same composite runs again after `failed` was cleared on these children
@@ -335,6 +336,11 @@ def step (s : St) (ws : List String) : St × List String :=
             "rec " ++ joinOrDash ((ids.filter fun i => !(s.w.accIn i).isEmpty).map fun i =>
               s!"{i}:{showNats (sortNats (r.mem i))}") ])
     | _, _ => (s, ["bad-op"])
+  | ["roundtrip"] =>
+    -- the composite goes through __getstate__ / __setstate__ (pickle, save + load): connections re-made from the stored lists
+    let ids := List.range s.n
+    let sigs := List.range (4 * s.n)
+    ({ s with w := s.w.roundtrip false ids sigs }, [])
   | ["quiet", i] =>
     match i.toNat? with
     | some i => if i < s.n then ({ s with quiet := i :: s.quiet }, []) else (s, ["bad-op"])
